@@ -428,6 +428,11 @@ def oracle_refuse(g):
     """every error return of hostConn before the join: closed, nothing back, nothing at any endpoint"""
     if g.get("setup_err"):
         return ("refuse-setup", "could not start the proxy world: %s" % g["setup_err"])
+    if g.get("aliased"):
+        return ("config-aliased", "%s mode: after NewServer returned, the harness overwrote the Lookup / DialHome / DialForward "
+                "/ SideToken of the ServerConfig value it had passed (as an application reusing the value for a second server "
+                "does); the server called the overwritten functions %d time(s): its routing follows its caller's struct instead "
+                "of what it was configured with" % (g["mode"], g["aliased"]))
     for m in g.get("mis") or []:
         want = "EP %s GOT %s" % (m["expect"], m["tag"])
         if m["reply"] != want or m["payload"] != "ok":
